@@ -254,9 +254,26 @@ func body(c *kernel.Ctx) {
 						h.add(o)
 						verifrt.Note("c%d store %v vid=%d", cl, o.key, o.vid)
 					}
-					err := store.Store(ctx, k.duty, set)
+					// A fifth of the stores are made with a context of the writer's own that is already cancelled or
+					// ends 0-2 ms into the call: Store may return that context's error while the write it handed over
+					// still takes effect (now or later) - or never does.
+					sctx := ctx
+					if verifrt.Intn("w", 5) == 4 {
+						var scancel context.CancelFunc
+						if verifrt.Intn("w", 2) == 0 {
+							sctx, scancel = context.WithCancel(ctx)
+							scancel()
+						} else {
+							sctx, scancel = context.WithTimeout(ctx, time.Duration(verifrt.Intn("w", 3))*time.Millisecond)
+						}
+						defer scancel()
+					}
+					err := store.Store(sctx, k.duty, set)
 					if ctx.Err() != nil {
 						return
+					}
+					if err != nil && sctx.Err() != nil && classify(err) == "ctx" {
+						verifrt.Probe("store-returned-its-callers-context-error")
 					}
 					rt := verifrt.Now()
 					rs := h.stamp()
@@ -373,6 +390,12 @@ var model = (&porcupine.NondeterministicModel{
 				return []interface{}{s}
 			case o.err == "mismatch" && s != 0 && s != i.vid:
 				return []interface{}{s}
+			case o.err == "ctx":
+				// the writer's own context ended: the entry was applied (first write wins), or was not
+				if s == 0 {
+					return []interface{}{uint64(0), i.vid}
+				}
+				return []interface{}{s}
 			}
 			return nil
 		case opAwait:
@@ -420,11 +443,14 @@ func after(c *kernel.Ctx) {
 		if st.expiring[o.key.duty] {
 			continue // expiry deletes asynchronously; only attribution is checked for this duty
 		}
+		if o.kind == opStore && o.err == "ctx" {
+			o.ret = maxSeq // abandoned by its caller: its effect, if any, may come at any later time
+		}
 		if o.ret == 0 {
 			if o.kind == opAwait {
 				continue // pending read: no effect
 			}
-			// pending store (never happens: stores are not cancelled); treat as possibly applied
+			// pending store; treat as possibly applied
 			o.ret = maxSeq
 			o.err = "mismatch"
 			o.setErr = true
